@@ -283,6 +283,8 @@ class Ledger:
             return None
         r = strip_sites(self.recv(s))
         if r[0] == 'vfield' and r[2] in ('Encrypted', 'Compressed') and m_call(r[1], name='case', self_suffix='Envelope') is not None:
+            if not self.has_digest_invariant():
+                return None      # the constructor-side guard (C04.6) does not hold on this tree: the case invariant is gone
             return ('D-CASEINV', 'payload of an existing %s case: built only behind has_digest (C04.6), also for decoded input (C06.7)' % r[2])
         return None
 
@@ -563,6 +565,37 @@ class Ledger:
             return ('D-COUNTER', 'sum of element counts of disjoint in-memory sub-envelopes')
         return None
 
+    def d_len_sub(self, s):
+        """len(X) - k (k a constant) at a site that is unreachable while X has fewer than k elements (finite valuation of the count)."""
+        if s['cls'] != 'overflow' or s['what'] != 'overflow:Sub':
+            return None
+        b, bi = s['body'], s['block']
+        t = b.term(bi)
+        tb = self.tb(b)
+        ops = [strip_sites(tb.operand_term(o, bi, len(b.blocks[bi]['stmts']))) for o in t.get('ops', [])]
+        if len(ops) != 2 or const_int(ops[1]) is None or not (0 < const_int(ops[1]) <= 8):
+            return None
+        k = const_int(ops[1])
+        l = strip_sites(detry(ops[0]))
+        if l[0] == 'call' and call_name(l) == 'len' and len(l[2]) == 1:
+            coll = l[2][0]
+        elif l[0] == 'len':
+            coll = l[1]
+        else:
+            return None
+        coll = strip_sites(elem_source(coll))
+        def same_coll(x):
+            return strip_sites(detry(elem_source(x))) == coll
+        lens = find_terms(b, tb, lambda x: (x[0] == 'call' and call_name(x) == 'len' and same_coll(x[2][0])) or (x[0] == 'len' and same_coll(x[1])))
+        empt = find_terms(b, tb, lambda x: x[0] == 'call' and call_name(x) == 'is_empty' and same_coll(x[2][0]))
+        for n in range(0, k):
+            env = {x: n for x in lens}
+            env[('len', coll)] = n
+            env.update({e: (n == 0) for e in empt})
+            if bi in reach_under(b, tb, env):
+                return None
+        return ('D-LEN', 'len(%s) - %d is unreachable for len < %d (valuation of %s)' % (fmt(coll), k, k, [fmt(x) for x in lens + empt]))
+
     def d_preserved(self, s):
         """the library's own assert!/assert_eq!: made true by the digest-preservation / non-emptiness obligations."""
         if s['cls'] != 'panic' or s['span'].get('mac') not in ('assert', 'assert_eq', 'debug_assert', 'debug_assert_eq'):
@@ -576,6 +609,28 @@ class Ledger:
         if self.obligations_hold(dep):
             return ('D-PRESERVED', 'library assertion whose condition is guaranteed by %s (re-evaluated: holds)' % dep)
         return None
+
+    def has_digest_invariant(self):
+        """C04.6 / C06.7 evaluated: every EnvelopeCase::Encrypted / Compressed is built on the passing edge of has_digest()."""
+        if 'hasdigest' in self._sub:
+            return self._sub['hasdigest']
+        from .props import C06
+        bad = []
+        class Rec:
+            def __init__(s2, ctx):
+                s2.ctx, s2.F, s2.features = ctx, ctx.F, ctx.features
+            def has(s2, *f): return s2.ctx.has(*f)
+            def site(s2, *a, **kw): return s2.ctx.site(*a, **kw)
+            def ok(s2, *a, **kw): pass
+            def skip(s2, *a, **kw): pass
+            def fail(s2, inst, *a, **kw): bad.append(inst)
+            def lost(s2, inst, what): bad.append(inst)
+        try:
+            C06.check_has_digest(Rec(self.ctx), 'x')
+        except Exception as e:
+            bad.append('exception %r' % e)
+        self._sub['hasdigest'] = not bad
+        return not bad
 
     def obligations_hold(self, dep):
         k = 'obl:' + dep
@@ -796,7 +851,7 @@ class Ledger:
         return None
 
     RULES = ['out_of_family', 'd_range_guard', 'd_share_len', 'd_len', 'd_bounds_window', 'd_size_arg', 'd_position', 'd_hasdigest', 'd_caseinv', 'd_assertion_subject', 'd_ownassert',
-             'd_guard', 'd_total', 'd_initsome_lock', 'd_counter', 'd_preserved', 'd_refcell', 'd_decrypt_scheme', 't_reason']
+             'd_guard', 'd_total', 'd_initsome_lock', 'd_counter', 'd_len_sub', 'd_preserved', 'd_refcell', 'd_decrypt_scheme', 't_reason']
 
     def discharge(self, s):
         for r in self.RULES:
